@@ -4,7 +4,7 @@ from .common import NONE
 from .drivers_ragged import rnd_val, rnd_slice, BINARY, UNARY
 
 RLV = ["from_array", "from_array", "concat2", "concat3", "pieces", "ufunc", "astype", "derived", "derived2"]
-RL_DTS = ["b1", "i1", "u1", "i2", "i4", "i8", "u4", "f2", "f4", "f8"]
+RL_DTS = ["b1", "i1", "u1", "i2", "i4", "i8", "i8", "u4", "u8", "f2", "f4", "f8"]
 
 
 def rnd_runs(r, dt, n=None, nan_ok=True, small=False):
@@ -26,6 +26,15 @@ def rnd_runs(r, dt, n=None, nan_ok=True, small=False):
 def gen_c14(r):
     dt = r.choice(RL_DTS)
     a = rnd_runs(r, dt, r.choice([1, 1, 2, 3, 4, 6, 9, 14]))
+    if dt in ("i8", "u8", "u4") and r.random() < 0.5:
+        # values beyond 2**31 / 2**53 (neighbours that a float64 comparison would merge), sent as 16-bit limbs
+        from .enc import limbs
+        base = r.choice([2 ** 53, 2 ** 62, 2 ** 63 - 8, 2 ** 40]) if dt != "u4" else 2 ** 32 - 8
+        if dt == "u8":
+            base = r.choice([2 ** 53, 2 ** 63, 2 ** 64 - 8])
+        sign = -1 if dt == "i8" and r.random() < 0.3 else 1
+        vals = {}
+        a = [limbs(sign * (base + vals.setdefault(repr(v), len(vals)))) for v in a]
     how = r.choice(["to_array", "asarray", "len", "size", "shape", "dtype", "encoding", "encoding"])
     return ["rl_roundtrip", dt, a, how], {"input": r.choice(["array", "array", "list"]), "conv": r.choice(["asarray", "array"])}, True
 
@@ -33,8 +42,12 @@ def gen_c14(r):
 def gen_c15(r):
     dt = r.choice(["i8", "i8", "i2", "u1", "b1", "f8", "f4"])
     n = r.choice([1, 2, 3, 5, 8, 12])
+    if r.random() < 0.06:
+        n = r.choice([70, 100, 127, 128, 130, 140])        # beyond the range of 8-bit positions
     a = rnd_runs(r, dt, n)
     k = r.choice(["int", "list", "mask", "rlmask", "slice", "slice", "slice", "slice", "windows", "all"])
+    if n > 20:
+        k = r.choice(["int", "list", "list", "slice"])
     if k == "int":
         idx = ["int", r.randint(-n - 1, n)]
     elif k == "list":
@@ -52,7 +65,8 @@ def gen_c15(r):
         idx = ["windows", st, [r.randint(s + 1, n) for s in st]]
     else:
         idx = ["all"]
-    return ["rl_getitem", dt, a, idx], {"npint": r.random() < 0.3, "listkind": r.choice(["list", "array"]), "via": r.choice(RLV), "maskvia": r.choice(RLV[:7])}, False
+    return ["rl_getitem", dt, a, idx], {"npint": r.random() < 0.3, "listkind": r.choice(["list", "array"]), "via": r.choice(RLV), "maskvia": r.choice(RLV[:7]),
+                                        "idxdt": r.choice(["i8", "i8", "i1", "u1", "i2", "i4"])}, False
 
 
 C16_DTS = ["b1", "i1", "u1", "i2", "i8", "f4", "f8"]
@@ -90,19 +104,24 @@ def gen_c16(r):
     if k == "hist":
         hdt = r.choice(["i8", "f8", "u1", "i2"])
         return ["rl_hist", hdt, rnd_runs(r, hdt, n, nan_ok=False), r.choice([0, 0, 3, 7])], {}, False
-    arrs = [[dt, rnd_runs(r, dt, r.choice([1, 2, 4, 7]))] for _ in range(r.randint(1, 4))]
+    mixed = r.random() < 0.4
+    arrs = []
+    for _ in range(r.randint(1, 4)):
+        d = r.choice(C16_DTS) if mixed else dt
+        arrs.append([d, rnd_runs(r, d, r.choice([1, 2, 4, 7]), nan_ok=not mixed)])
     return ["rl_concat", arrs], {"via": r.choice(RLV)}, False
 
 
 def rnd_obj(r, dt=None, kinds=("matrix", "ragged", "ragged", "intervals")):
-    dt = dt or r.choice(["i8", "i8", "u1", "b1", "f8", "i2"])
+    dt = dt or r.choice(["i8", "i8", "u1", "b1", "f8", "i2", "u2", "i1"])
     k = r.choice(kinds)
+    small = not (dt in ("u1", "i2", "u2", "i1") and r.random() < 0.4)     # narrow dtypes also with their extremes: totals leave the dtype
     if k == "matrix":
         n, m = r.randint(1, 4), r.randint(1, 6)
-        return ["matrix", dt, [rnd_runs(r, dt, m, nan_ok=False, small=True) for _ in range(n)]]
+        return ["matrix", dt, [rnd_runs(r, dt, m, nan_ok=False, small=small) for _ in range(n)]]
     if k == "ragged":
         n = r.randint(1, 5)
-        return ["ragged", dt, [rnd_runs(r, dt, r.randint(1, 7), nan_ok=False, small=True) for _ in range(n)]]
+        return ["ragged", dt, [rnd_runs(r, dt, r.randint(1, 7), nan_ok=False, small=small) for _ in range(n)]]
     n, L = r.randint(1, 4), r.randint(1, 8)
     st = [r.randint(0, L - 1) for _ in range(n)]
     return ["intervals", st, [r.randint(s + 1, L) for s in st], L]
@@ -181,7 +200,8 @@ def gen_c13(r):
     a = [dig(i) for i in range(n)]
     k = r.choice(["bit_roundtrip", "bit_get", "bit_getlist", "bit_getlist", "bit_window", "bit_window", "bit_len"])
     opts = {"indt": r.choice(["u1", "u2", "u4", "u8", "u8", "i1", "i2", "i4", "i8"]), "npidx": r.random() < 0.3, "listkind": r.choice(["list", "array"]), "again": r.random() < 0.5,
-            "repack": r.random() < 0.4, "pre_w": r.choice([0, 0, 1, 2, 3, per])}
+            "repack": r.random() < 0.4, "pre_w": r.choice([0, 0, 1, 2, 3, per]), "npw": r.choice([None, None, "i8", "i4", "u1", "i2"]),
+            "idxdt": r.choice(["i8", "i8", "u1", "i1", "i2", "u2"])}
     if b >= 8 and opts["indt"] in ("i1",) or (b == 16 and opts["indt"] in ("i2",)) or (b == 32 and opts["indt"] in ("i4",)):
         opts["indt"] = "u8"
     if k == "bit_get":
@@ -215,7 +235,7 @@ def gen_c18(r):
     n = r.randint(0, 7)
     t = tab(n, 0)
     k = r.choice(["dc_new", "dc_len", "dc_getitem", "dc_getitem", "dc_getitem", "dc_iter", "dc_concat", "dc_concat", "dc_eq", "dc_astype", "vl_concat", "dc_bad"])
-    inh = {"inherit": r.random() < 0.4}
+    inh = {"inherit": r.random() < 0.4, "listmask": r.random() < 0.5, "npint": r.random() < 0.3, "firstdt": r.choice([None, None, "u1", "i2", "i4"])}
     if k == "dc_getitem":
         from .drivers_ragged import rnd_slice
         sel = r.choice([["int", r.randint(-n - 1, n)], rnd_slice(r, n), ["list", [r.randint(-n, n - 1) for _ in range(r.randint(0, 5))] if n else []],
